@@ -24,6 +24,7 @@ is at this step that they are scheduled for addition or deletion (respectively).
 information is just stored: `paroxython.parse_program.ProgramParser` will process it when required.
 """
 
+import ast
 from collections import defaultdict
 from token import DEDENT, INDENT, NEWLINE, STRING
 from tokenize import COMMENT, NL, generate_tokens
@@ -318,13 +319,21 @@ class Cleanup:
 
     @staticmethod
     def suppress_main_guard(
-        source: str, sub: Callable = regex.compile(r"(?ms)^if +__name__ *== *.__main__. *:.+").sub
+        source: str, match: Callable = regex.compile(r"if +__name__ *== *.__main__. *:").match
     ) -> str:
-        """Suppress `if __name__ == '__main__'` part.
+        """Suppress the `if __name__ == '__main__'` block (and only this block).
 
-        Argument `sub` [not to be explicitly provided.](developer_manual/index.html#default-argument-trick)
+        Argument `match` [not to be explicitly provided.](developer_manual/index.html#default-argument-trick)
         """
-        return sub("", source)
+        try:
+            statements = ast.parse(source).body
+        except (SyntaxError, ValueError):  # the parser will report the error
+            return source
+        lines = source.split("\n")
+        for node in reversed(statements):
+            if isinstance(node, ast.If) and match(lines[node.lineno - 1]):
+                del lines[node.lineno - 1 : node.end_lineno]
+        return "\n".join(lines)
 
     @staticmethod
     def suppress_sys_path_injection(
